@@ -1,5 +1,5 @@
 """C10 - a failed connection fails every pending request exactly once (spec/Connection.tla)."""
-from checks import _conn
+from checks import _conn, _driver
 
 META = {
     "property_id": "C10",
@@ -20,7 +20,10 @@ META = {
 
 def run(ctx):
     _conn.run(ctx, "C10")
+    _driver.system_tier(ctx, "C10")     # thorough: whole-driver runs against spec/Driver.tla, rejections owned by C10
 
 
 def replay(ctx, obj):
+    if _driver.is_system_replay(obj):
+        return _driver.replay_system(ctx, obj)
     _conn.replay(ctx, "C10", obj)
